@@ -342,6 +342,8 @@ class Engine:
                     raise ValueError(f'field {p[1]} of {v!r}')
             if isinstance(v, Closure):
                 return v.caps[p[1]]
+            if isinstance(v, Obj) and v.kind == 'String' and p[1] == 0:
+                return v        # owned identifier newtypes (`OwnedUserId(Box<UserId>)`) produced by into_owned / to_owned models
             if isinstance(v, Obj):
                 return self.obj_field(st, v, p[1])
             if isinstance(v, (Str, Ref)):
@@ -1022,6 +1024,8 @@ class Engine:
             if getattr(e, '_mirsym_ctx', False):
                 raise
             cur = term if was_term else stmts[fr.ip - 1]
+            if os.environ.get('VERIF_DEBUG'):
+                import traceback; traceback.print_exc()
             err = Inconclusive(f'engine cannot execute `{cur[:200]}` in {f.name} bb{fr.bb}: {type(e).__name__}: {e}')
             raise err from e
 
